@@ -11,7 +11,7 @@ def main(chk: core.Check, replay):
     quick = chk.tier == "quick"
     # gcc in its default mode; a model that does not compile is an error entry (tag error)
     run_expr_corpus(chk, "C02", "c", exprcorpus.QUICK_LEVELS if quick else exprcorpus.THOROUGH_LEVELS,
-                    cap=1200 if quick else 12000, batch=100)
+                    cap=1200 if quick else 8000, batch=100)
     run_scheme_corpus(chk, "C02", {"explicit_euler", "generalized_rush_larsen", "hybrid_rush_larsen", "generate"},
                       backend="c", fams=[3, 4] if quick else [1, 2, 3, 4])
     structural.run(chk, "C02", quick_models=120, thorough_models=1500, layout=True)
